@@ -33,9 +33,7 @@ Fixpoint kids_eqb (ka kb : list (name * tree)) : bool :=
 Lemma tree_eqb_PB : forall x ka y kb,
   tree_eqb (PB x ka) (PB y kb) = (x =? y) && kids_eqb ka kb.
 Proof.
-  intros x ka y kb. cbn [tree_eqb]. f_equal. revert kb.
-  induction ka as [|[n c] ra IH]; intros [|[m e] rb]; cbn [kids_eqb]; try reflexivity.
-  all: try (rewrite IH; reflexivity).
+  intros x ka y kb. reflexivity.
 Qed.
 
 Lemma tree_eqb_eq : forall a b, tree_eqb a b = true <-> a = b.
